@@ -54,6 +54,23 @@ CHECKS['C11'] = dict(
    design_ref='5.11',
    note='Trusted: TLC, CommunityModules, g++. MMIO offsets used are plain-storage cells; page mode 1 as coded.',
    technique='TLA+ spec + TLC bounded exhaustive model checking + TLC trace validation of recorded accessor histories')
+CHECKS['C10'] = dict(
+   text='TLC checks the address-stepping theorems on the TLA+ transcription of StepAddress/RnAndModify/RnAddress/OffsetAddress '
+        'at the real widths: for every modulo value (boundary set quick, all 512 thorough) x every in-buffer offset x both modes the '
+        '+-1 step is the cyclic walk of [base, base+mod] with untouched alignment bits; linear stepping, end-pointer zeroing, bit '
+        'reversal and zero steps; every encoding of the address-modifying instruction families is executed by the real interpreter '
+        'and validated in full by TLC.',
+   design_ref='5.10',
+   note='Trusted: TLC, CommunityModules, g++, the frozen TLA+ semantics. The walk theorem is stated for start addresses inside the buffer.',
+   technique='TLA+ spec: TLC theorems over the full modulo domain + TLC trace validation of real instruction executions')
+CHECKS['C20'] = dict(
+   text='TLC checks read-back, read-only, frame and cross-view theorems for all 19 words (all 65536 written values in the thorough '
+        'tier) on the slot tables of TeakRegs.tla; the real RegisterState::Set<>/Get<> is validated against the same tables on random '
+        'complete register states, as are the annotated disassembler and every instruction that moves a status word.',
+   design_ref='5.20',
+   note='Trusted: TLC, CommunityModules, g++; the slot tables are a frozen hand transcription of register.h. The generator side of the '
+        'ar/arp clause is covered through the generator clause of C01 (accesses stay in the compared windows).',
+   technique='TLA+ spec: exhaustive TLC theorems + TLC trace validation of Set/Get and instruction executions')
 NOT_YET = {}
 def main():
     props = [json.loads(l)['id'] for l in open(os.path.join(V, 'properties.jsonl'))]
